@@ -499,6 +499,7 @@ func (ex *Exec) runBody(st *State, pc string) {
 				ex.returns = append(ex.returns, retSite{pc: ex.curPC, st: ex.curSt, vals: vs, viaPanic: ex.curPC == "false"})
 			case *ssa.Panic:
 				pv := ex.val(t.X)
+				ex.siteHook(in) // "at panic #k assert ..." sees the panic value as `value`
 				ex.pendingPanicVal = &pv
 				what := ex.eng.snippet(t.Pos())
 				if what == "" {
@@ -779,6 +780,9 @@ func (ex *Exec) fireSite(cl *Clause, sel string, in ssa.Instruction) {
 		}
 	}
 	env := &Env{ex: ex, st: ex.curSt, old: r.entrySt, vars: map[string]Val{}, fn: ex.fn, pkg: ex.fn.Pkg.Pkg, at: pos, where: "site " + sel}
+	if p, ok := in.(*ssa.Panic); ok {
+		env.vars["value"] = ex.val(p.X)
+	}
 	if c, ok := in.(ssa.CallInstruction); ok {
 		for i, a := range c.Common().Args {
 			env.vars[fmt.Sprintf("arg%d", i)] = ex.val(a)
@@ -846,6 +850,10 @@ func (ex *Exec) siteMatches(sel string, in ssa.Instruction) bool {
 		case "mapupdate":
 			// "mapupdate #k": the k-th map element assignment m[k] = v of the function
 			_, ok := i.(*ssa.MapUpdate)
+			return ok
+		case "panic":
+			// "panic #k": the k-th panic statement of the function; the clause sees its operand as `value`
+			_, ok := i.(*ssa.Panic)
 			return ok
 		case "store":
 			st, ok := i.(*ssa.Store)
